@@ -100,3 +100,29 @@ def simplex_within_ranges(h):
 
 # SetInitialPoints itself (member 0 == x0) is not under contract: it juggles numpy 0-d arrays (`asarray(radius).shape`),
 # which the model does not distinguish from python floats; the bounded layer checks the clause on every scenario.
+
+
+@contract('C02/SetRandomInitialPoints/some-limits-None', ['C02'], AS + '.SetRandomInitialPoints', native=False)
+def random_points_partial_limits(h):
+    """limits given per coordinate with some of them None: a missing LOWER limit means the default minimum (-1e3), a
+    missing UPPER limit the default maximum (+1e3); every coordinate of every member lies within its (completed) limits"""
+    if not h.is_sym():
+        h.unsupported('symbolic only')
+    D, NP = 2, 2
+    which = h.choice('none_entries', ['upper0', 'lower1', 'upper0+lower1', 'all-upper', 'all-lower'])
+    m0, m1, M0, M1 = h.real('min0'), h.real('min1'), h.real('max0'), h.real('max1')
+    h.assume('-1000 <= m0 and m0 <= M0 and M0 <= 1000 and -1000 <= m1 and m1 <= M1 and M1 <= 1000', m0=m0, m1=m1, M0=M0, M1=M1)
+    lo = [m0, None if which in ('lower1', 'upper0+lower1', 'all-lower') else m1]
+    hi = [None if which in ('upper0', 'upper0+lower1', 'all-upper') else M0, M1]
+    if which == 'all-upper':
+        hi = [None, None]
+    if which == 'all-lower':
+        lo = [None, None]
+    pop = h.clist([h.clist([0.0, 0.0]), h.clist([0.0, 0.0])])
+    s = h.obj(AS, nDim=D, nPop=NP, population=pop, _defaultMin=h.clist([-1e3]), _defaultMax=h.clist([1e3]))
+    h.call(h.getattr(s, 'SetRandomInitialPoints'), h.clist(list(lo)), h.clist(list(hi)))
+    L = [(-1000 if v is None else v) for v in lo]
+    H = [(1000 if v is None else v) for v in hi]
+    env = dict(pop=pop, L0=L[0], L1=L[1], H0=H[0], H1=H[1])
+    h.check('every-coordinate-within-its-limits-missing-ones-completed-by-the-defaults',
+            ' and '.join('L%d <= pop[%d][%d] and pop[%d][%d] <= H%d' % (b, a, b, a, b, b) for a in range(NP) for b in range(D)), **env)
